@@ -2,7 +2,7 @@
    Only theorem statements closed by `exact`, each followed by Print Assumptions. *)
 From Coq Require Import Permutation.
 From Names Require Import Order.
-From Object Require Import ObjSeg ObjSegProofs ObjSegModel Store StoreSpec StoreMem StoreBolt StoreThm Defects Fetch FetchStream FetchSafe FetchLive FetchBudget FetchCheck.
+From Object Require Import ObjSeg ObjSegProofs ObjSegModel Store StoreSpec StoreMem StoreBolt StoreThm ProduceStore Defects Fetch FetchStream FetchSafe FetchLive FetchBudget FetchCheck.
 Open Scope nat_scope.
 
 Definition S8000 : nat := N.to_nat pSegmentSize.
@@ -74,6 +74,25 @@ Theorem removed_not_served_bolt : forall cap ops nm, (0 < cap)%N -> bbrackets fa
   b_get cap (bs_db (run_bolt cap (ops ++ [SRemove nm true]))) q p = None.
 Proof. exact StoreThm.removed_not_served_bolt. Qed.
 Print Assumptions removed_not_served_bolt.
+
+(* newest version after any number of Produce calls: `history` = for each (version, content) the store calls Produce makes
+   (Begin; Put of every segment packet and of the metadata packet; Commit), versions pairwise distinct and 64-bit, contents
+   non-empty; `wire_of` = spec.MakeData (any function). The consumer's metadata query Get(name/32=metadata, prefix) is
+   answered with the metadata packet of the numerically largest version — by the memory store for every iteration order
+   of its maps, by the bolt store as long as fewer than `cap` versions are stored. *)
+Theorem newest_after_produce_mem : forall (wire_of : packet -> bytes) S nm (order : list cand -> list cand),
+  (forall l, Permutation (order l) l) -> forall vs, vs_ok vs -> vs <> [] ->
+  exists w, mt_get order (ms_root (run_mem order (history wire_of S nm vs))) (q_meta nm) true = Some w /\
+            newest_meta wire_of S nm vs w.
+Proof. exact ProduceStore.newest_after_produce_mem. Qed.
+Print Assumptions newest_after_produce_mem.
+
+Theorem newest_after_produce_bolt : forall (wire_of : packet -> bytes) S nm, Forall comp_wf nm ->
+  forall cap vs, vs_ok vs -> vs <> [] -> (N.of_nat (length vs) < cap)%N ->
+  exists w, b_get cap (bs_db (run_bolt cap (history wire_of S nm vs))) (q_meta nm) true = Some w /\
+            newest_meta wire_of S nm vs w.
+Proof. exact ProduceStore.newest_after_produce_bolt. Qed.
+Print Assumptions newest_after_produce_bolt.
 
 (* bucket order of version components is numeric order, also across byte-length boundaries (255 -> 256) *)
 Theorem version_key_order : forall a b, (a < two64)%N -> (b < two64)%N ->
